@@ -28,6 +28,7 @@ def binVal (op : Op) (a b : Val) : Val :=
   | .sub => evalArith .sub a b
   | .mul => evalArith .mul a b
   | .mod => evalArith .mod a b
+  | .concat_op => evalArith .concat_op a b
   | .and_ => evalArith .and_ a b
   | .or_ => evalArith .or_ a b
   | .eq => ofTV (evalCmp .eq a b)
@@ -110,11 +111,12 @@ def isAbsentU : U → Bool
   | _ => false
 
 mutual
-/-- meaning of a numeric API-call tree -/
+/-- meaning of a numeric or string-valued API-call tree -/
 def evalNumU (env : String → Val) (d : Dialect) : U → Val
   | .col n _ => env n
   | .subq n _ => env n
   | .li i => .int i
+  | .ls s => .str s
   | .ln _ => .null
   | .bin .truediv a b => divVal d .truediv (tyU a) (tyU b) (evalNumU env d a) (evalNumU env d b)
   | .bin .floordiv a b => divVal d .floordiv (tyU a) (tyU b) (evalNumU env d a) (evalNumU env d b)
